@@ -200,10 +200,13 @@ def _optimiser(h, d, n, with_err=True, one_d_input=False):
     return op, aq, fits, x, y, e, lo, wd, bounds
 
 
-@unit("C18", quick=[dict(d=1, one_d=True), dict(d=1, one_d=False), dict(d=2, one_d=False)], max_paths=4000)
-def add_evaluation_extends_data_and_keeps_callers_arrays(h, d, one_d):
+@unit("C18", quick=[dict(d=1, one_d=True), dict(d=1, one_d=False), dict(d=2, one_d=False), dict(d=1, one_d=True, design="int"), dict(d=2, one_d=False, design="int")], max_paths=4000)
+def add_evaluation_extends_data_and_keeps_callers_arrays(h, d, one_d, design="float"):
     op, aq, fits, x, y, e, lo, wd, bounds = _optimiser(h, d, 2, with_err=True, one_d_input=one_d)
     h.covers(op.GpOptimiser.__init__, op.GpOptimiser.add_evaluation)
+    if design == "int":
+        # an initial design given as an integer array (any numeric dtype is accepted); the added point is an arbitrary real
+        x = np.array([-8, 6]) if one_d else np.array([[-8, 3], [6, -2]])[:, :d]
     x0, y0, e0 = x.copy(), y.copy(), e.copy()
     shape0 = x.shape
     G = op.GpOptimiser(x, y, bounds, y_err=e, hyperpars=np.zeros(d + 2), acquisition=aq.UpperConfidenceBound)
